@@ -74,8 +74,56 @@ Definition replay_event (r : rp) (e : val) : rp :=
       | Some (k', _) => {| rp_k := k'; rp_idx := rp_idx r; rp_applied := rp_applied r; rp_res := rp_res r; rp_fail := rp_fail r |}
       | None => add_fail r [finding K_DIVERGE F_X_TRACE (VB (bs "drop after the consumer finished")) (VL [])]
       end
+  | VL [VN 5; VN _] => r                     (* the consumer re-takes the lock within one poll: no model step *)
   | _ => add_fail r [finding K_BAD (bs "sched-event") e (VL [])]
   end.
+
+(* ---- oracles over the executed trace alone (no model state): the outcome clauses of C10 / C11 ---- *)
+Record tr := { t_acc : bytes; t_del : bytes; t_abort : bool; t_alive : bool; t_term : option bool (* true = clean end *);
+               t_fail : list string }.
+Definition tr_fail (t : tr) (c : string) : tr :=
+  {| t_acc := t_acc t; t_del := t_del t; t_abort := t_abort t; t_alive := t_alive t; t_term := t_term t;
+     t_fail := if existsb (String.eqb c) (t_fail t) then t_fail t else t_fail t ++ [c] |}.
+Definition trace_event (prog : list cop) (t : tr) (e : val) : tr :=
+  match e with
+  | VL [VN 0; VN k] =>                       (* a critical section of operation k *)
+      match nth_error prog (N.to_nat k) with
+      | Some OAbort => if t_alive t
+                       then {| t_acc := t_acc t; t_del := t_del t; t_abort := true; t_alive := false; t_term := t_term t; t_fail := t_fail t |}
+                       else t
+      | _ => t
+      end
+  | VL [VN 2; VN k; res; VN _] =>
+      match nth_error prog (N.to_nat k), res with
+      | Some (OWrite d), VL [VN 0; VN n] =>
+          let t' := {| t_acc := t_acc t ++ firstn (N.to_nat n) d; t_del := t_del t; t_abort := t_abort t; t_alive := t_alive t;
+                       t_term := t_term t; t_fail := t_fail t |} in
+          if t_abort t && negb (n =? 0) then tr_fail t' "write-accepted-after-abort" else t'
+      | Some OFlush, VL [VN 2] => if t_abort t then tr_fail t "flush-succeeds-after-abort" else t
+      | Some ODropWriter, _ | Some OAbort, _ =>
+          {| t_acc := t_acc t; t_del := t_del t; t_abort := t_abort t; t_alive := false; t_term := t_term t; t_fail := t_fail t |}
+      | _, _ => t
+      end
+  | VL [VN 3; VN _; VB d] =>
+      let t' := {| t_acc := t_acc t; t_del := t_del t ++ d; t_abort := t_abort t; t_alive := t_alive t; t_term := t_term t; t_fail := t_fail t |} in
+      match t_term t with Some _ => tr_fail t' "data-after-the-terminal-event" | None => t' end
+  | VL [VN 3; VN _; VL [VN 5]] =>
+      let t' := {| t_acc := t_acc t; t_del := t_del t; t_abort := t_abort t; t_alive := t_alive t; t_term := Some true; t_fail := t_fail t |} in
+      if t_abort t then tr_fail t' "clean-end-after-abort" else t'
+  | VL [VN 3; VN _; VL [VN 6]] =>
+      {| t_acc := t_acc t; t_del := t_del t; t_abort := t_abort t; t_alive := t_alive t; t_term := Some false; t_fail := t_fail t |}
+  | _ => t
+  end.
+Definition trace_clauses (prog : list cop) (trace : list val) : list string :=
+  let t := fold_left (trace_event prog) trace
+             {| t_acc := []; t_del := []; t_abort := false; t_alive := true; t_term := None; t_fail := [] |} in
+  t_fail t
+  ++ (if starts_with (t_del t) (t_acc t) then [] else ["delivered-bytes-are-not-a-prefix-of-the-accepted-bytes"%string])
+  ++ match t_term t with
+     | Some true => if beq_bytes (t_del t) (t_acc t) then [] else ["clean-end-without-everything-accepted"%string]
+     | Some false => if existsb (fun o => match o with OAbort => true | _ => false end) prog then [] else ["error-without-abort"%string]
+     | None => []
+     end.
 
 (* the no-lost-wakeup condition J of Proofs/ConcP.v, evaluated on the replayed model state *)
 Definition j_holds (k : kst) : bool :=
@@ -108,7 +156,11 @@ Definition run_sched (v : val) : val :=
               ++ (if j_holds (rp_k rf) then [] else [xclause "parked-consumer-with-data-or-termination-pending-and-no-wake-in-flight"])
               ++ (if stuck =? 0 then [] else [xclause "consumer-asleep-while-termination-pending"])
               ++ (if timeout =? 0 then [] else [xclause "thread-blocked-deadlock"])
-              ++ (if wwl =? 0 then [] else [xclause "wake-while-holding-the-lock"]))
+              ++ (if wwl =? 0 then [] else [xclause "wake-while-holding-the-lock"])
+              ++ flat_map (fun c => [finding K_SPECFAIL (bs "C10:" ++ bs c) (VL []) (VL []);
+                                     finding K_SPECFAIL (bs "C11:" ++ bs c) (VL []) (VL [])]) (trace_clauses prog trace)
+              ++ (if (negb (stuck =? 0)) && existsb (fun o => match o with OAbort => true | _ => false end) prog
+                  then [finding K_SPECFAIL (bs "C11:consumer-never-sees-the-abort-error") (VL []) (VL [])] else []))
       end
   | _ => VL [finding K_BAD (bs "sched") (VL []) (VL [])]
   end.
